@@ -955,7 +955,7 @@ func (p *queuePool) take(i int) func() {
 
 // srvQueuedPool: k requests written to one connection in ONE burst, all read and queued before any starts, then run
 // in the given order: each is answered once, with its own stamp and its own result.  case: qpool|<reqs>|<order>
-func srvQueuedPool(o *common.Out, id string, reqs []sreqCase, order []int) {
+func srvQueuedPool(o *common.Out, id string, reqs []sreqCase, order []int, oracleOnly bool) {
 	var encs, os []string
 	for i, q := range reqs {
 		encs = append(encs, q.enc(i))
@@ -980,25 +980,63 @@ func srvQueuedPool(o *common.Out, id string, reqs []sreqCase, order []int) {
 	var model []string
 	for rid, q := range reqs {
 		path, meth := q.pathMethod()
+		meta := []refcodec.KV{{K: []byte("rid"), V: []byte(strconv.Itoa(rid))}}
+		switch q.mode {
+		case "limit":
+			meta = append(meta, refcodec.KV{K: []byte("x-limit"), V: []byte("1")})
+		case "auth":
+			meta = append(meta, refcodec.KV{K: []byte(share.AuthKey), V: []byte("deny")})
+		}
 		burst = append(burst, reqSpec{seq: q.seq, path: path, method: meth, ser: q.ser, hb: q.hb, oneway: q.ow, payload: q.payload(rid),
-			meta: []refcodec.KV{{K: []byte("rid"), V: []byte(strconv.Itoa(rid))}}}.frame()...)
+			meta: meta}.frame()...)
 		model = append(model, q.modelTok(rid))
 	}
 	if _, err := p.conn.Write(burst); err != nil {
 		o.Fail(id, "connection-closed", err.Error(), abstract)
 		return
 	}
+	// the requests the connection loop refuses itself are answered by the reader at once and never queued
+	taskOf := map[int]int{}
+	var refusedRids []int
+	for rid, q := range reqs {
+		if q.refused() != "" {
+			refusedRids = append(refusedRids, rid)
+		} else {
+			taskOf[rid] = len(taskOf)
+		}
+	}
+	nq := len(taskOf)
 	deadline := time.Now().Add(3 * time.Second)
-	for qp.queued() < len(reqs) && time.Now().Before(deadline) {
+	for qp.queued() < nq && time.Now().Before(deadline) {
 		time.Sleep(200 * time.Microsecond)
 	}
-	if qp.queued() != len(reqs) {
-		o.Fail(id, "not-queued", fmt.Sprintf("%d of %d requests reached the worker pool", qp.queued(), len(reqs)), abstract)
+	if qp.queued() != nq {
+		o.Fail(id, "not-queued", fmt.Sprintf("%d of %d admitted requests reached the worker pool", qp.queued(), nq), abstract)
 		return
 	}
 	var per []string
+	for _, rid := range refusedRids {
+		q := reqs[rid]
+		if q.ow && !q.hb {
+			continue
+		}
+		f := p.next(3 * time.Second)
+		if f == nil {
+			o.Fail(id, "no-response", fmt.Sprintf("the refused request %d (seq %d) got no answer", rid, q.seq), abstract)
+			continue
+		}
+		v := viewFrame(f)
+		per = append(per, showView(v, &q, rid))
+		if !v.isResp || v.seq != q.seq || v.status != "error" || v.errText != server.ErrReqReachLimit.Error() {
+			o.Fail(id, "result-for-rejected", fmt.Sprintf("the refused request %d (seq %d) was answered with %s", rid, q.seq, showView(v, &q, rid)), abstract)
+		}
+	}
 	for _, rid := range order {
-		qp.take(rid)()
+		if _, admitted := taskOf[rid]; !admitted {
+			model = append(model, fmt.Sprintf("D:%d", rid))
+			continue
+		}
+		qp.take(taskOf[rid])()
 		model = append(model, fmt.Sprintf("D:%d", rid))
 		q := reqs[rid]
 		if q.ow && !q.hb {
@@ -1023,11 +1061,11 @@ func srvQueuedPool(o *common.Out, id string, reqs []sreqCase, order []int) {
 	}
 	if err := p.send(reqSpec{seq: 999999, hb: true, ser: 1, payload: []byte("hb")}); err == nil {
 		dl := time.Now().Add(3 * time.Second)
-		for qp.queued() < len(reqs)+1 && time.Now().Before(dl) {
+		for qp.queued() < nq+1 && time.Now().Before(dl) {
 			time.Sleep(200 * time.Microsecond)
 		}
-		if qp.queued() == len(reqs)+1 {
-			qp.take(len(reqs))()
+		if qp.queued() == nq+1 {
+			qp.take(nq)()
 		}
 		if f := p.next(3 * time.Second); f == nil {
 			o.Fail(id, "server-dead", "the connection no longer answers heartbeats", abstract)
@@ -1042,6 +1080,20 @@ func srvQueuedPool(o *common.Out, id string, reqs []sreqCase, order []int) {
 	is := make([]string, len(inv))
 	for i, x := range inv {
 		is[i] = strconv.Itoa(x)
+	}
+	// a handler ran exactly for the requests that were admitted and can be dispatched
+	var wantInv []string
+	for rid, q := range reqs {
+		if q.handlerRuns() {
+			wantInv = append(wantInv, strconv.Itoa(rid))
+		}
+	}
+	if strings.Join(is, ",") != strings.Join(wantInv, ",") {
+		o.Fail(id, "handler-reached", fmt.Sprintf("handlers ran for requests [%s]; the requests that were admitted and name a service are [%s]", strings.Join(is, ","), strings.Join(wantInv, ",")), abstract)
+	}
+	if oracleOnly {
+		o.ImplOnly(id, abstract, true)
+		return
 	}
 	o.Case(id, strings.Join(model, " "), fmt.Sprintf("c0=[%s] inv=[%s]", strings.Join(per, ";"), strings.Join(is, ",")), true)
 }
@@ -1108,7 +1160,7 @@ func runSrv(prop string, r *common.Rand, tier string, o *common.Out, replay stri
 			n, _ := strconv.Atoi(t)
 			order = append(order, n)
 		}
-		srvQueuedPool(o, "replay", reqs, order)
+		srvQueuedPool(o, "replay", reqs, order, prop != "C04")
 		return
 	}
 	if replay != "" {
@@ -1195,7 +1247,7 @@ func runSrv(prop string, r *common.Rand, tier string, o *common.Out, replay stri
 			k := 2 + r.Intn(3)
 			var reqs []sreqCase
 			for j := 0; j < k; j++ {
-				q := genSreq("C20", r, 1)
+				q := genSreq("C04", r, 1) // some are refused by the connection loop (rate limit): answered at once, never queued
 				q.conn = 0
 				if q.style == "router" {
 					q.style = "method"
@@ -1215,7 +1267,7 @@ func runSrv(prop string, r *common.Rand, tier string, o *common.Out, replay stri
 					order[j], order[x] = order[x], order[j]
 				}
 			}
-			srvQueuedPool(o, fmt.Sprintf("qp%d", i), reqs, order)
+			srvQueuedPool(o, fmt.Sprintf("qp%d", i), reqs, order, false)
 		}
 	}
 	if prop == "C04" || prop == "C07" {
